@@ -8,6 +8,7 @@ import (
 	"math/rand"
 	"os"
 	"runtime"
+	"strings"
 	"sync"
 	"time"
 
@@ -78,6 +79,18 @@ func cmdSignalScript(args []string) error {
 				if !closed {
 					add("hang:parent-close", op, "closing the parent did not return within 10 s")
 					break
+				}
+			}
+		}
+	}
+	// a scope that is ended while registered tasks are still running: Wait / Close cover them
+	for _, how := range []string{"kill", "stop", "error"} {
+		for _, useClose := range []bool{false, true} {
+			for rep := 0; rep < 5; rep++ {
+				executed++
+				if problems := scopex.RunWaitCoversTasks(how, useClose, 1+rep); len(problems) > 0 {
+					name := map[bool]string{false: "Wait", true: "Close"}[useClose]
+					add("tasks-of-a-done-scope:"+name, fmt.Sprintf("scope ended by %s with %d running tasks, then %s", how, 1+rep, name), name+" "+strings.Join(problems, "; "))
 				}
 			}
 		}
